@@ -604,7 +604,7 @@ var builtinRename = map[string]string{
 	"mapLen": "gh_mapLen", "allocated": "gh_allocated", "pureOf": "gh_pureOf",
 	"uf": "gh_uf", "ufb": "gh_ufb", "ufr": "gh_ufr", "seqOf": "gh_seqOf", "wrote": "gh_wrote", "div": "gh_div", "mod": "gh_mod",
 	"sameElems": "gh_sameElems", "abs": "gh_abs", "min": "gh_min", "max": "gh_max",
-	"count": "gh_count", "sum": "gh_sum", "upd": "gh_upd", "hdr": "gh_hdr", "kvDomain": "gh_kvDomain", "kvState": "gh_kvState", "kvHas": "gh_kvHas", "kvVal": "gh_kvVal", "kvWrites": "gh_kvWrites", "bytesId": "gh_bytesId", "keyId": "gh_keyId", "keyOf": "gh_keyOf", "sameRef": "gh_sameRef", "defined": "gh_defined", "argIs": "gh_argIs", "argc": "gh_argc", "argAs": "gh_argAs", "btHas": "gh_btHas", "btNil": "gh_btNil", "btBytes": "gh_btBytes", "arrOf": "gh_arrOf", "ordDet": "gh_ordDet", "anyOf": "gh_anyOf", "unavail": "gh_unavail", "errIs": "gh_errIs", "mapEq": "gh_mapEq", "emptyMap": "gh_emptyMap", "chanSends": "gh_chanSends",
+	"count": "gh_count", "sum": "gh_sum", "upd": "gh_upd", "hdr": "gh_hdr", "kvDomain": "gh_kvDomain", "kvState": "gh_kvState", "kvHas": "gh_kvHas", "kvVal": "gh_kvVal", "kvWrites": "gh_kvWrites", "bytesId": "gh_bytesId", "keyId": "gh_keyId", "keyOf": "gh_keyOf", "sameRef": "gh_sameRef", "defined": "gh_defined", "argIs": "gh_argIs", "argc": "gh_argc", "argAs": "gh_argAs", "btHas": "gh_btHas", "btNil": "gh_btNil", "btBytes": "gh_btBytes", "arrOf": "gh_arrOf", "ordDet": "gh_ordDet", "anyOf": "gh_anyOf", "unavail": "gh_unavail", "errIs": "gh_errIs", "mapEq": "gh_mapEq", "emptyMap": "gh_emptyMap", "chanSends": "gh_chanSends", "sameVal": "gh_sameVal",
 }
 
 var identCallRe = regexp.MustCompile(`\b([A-Za-z_]\w*)\s*\(`)
@@ -694,6 +694,7 @@ func gh_kvHas(k int) bool                 { return false }
 func gh_kvVal(k int) int                  { return 0 }
 func gh_kvWrites() int                    { return 0 }
 func gh_chanSends() int                   { return 0 }
+func gh_sameVal[T any](a, b T) bool       { return false }
 func gh_bytesId(b []byte) int             { return 0 }
 func gh_keyId(b []byte) int               { return 0 }
 func gh_keyOf(kf any, args ...any) int    { return 0 }
